@@ -44,6 +44,7 @@ type Exec struct {
 	initialClock string // ghost clock readings at unit entry (shared constant)
 	opaqueAx  map[string]string // defining axioms of opaque predicates, by symbol
 	opaqueRec map[string]bool   // opaque predicates whose definition mentions themselves
+	aliasCells map[string]*Cell // slice variables whose backing array an append wrote into, by ghost key
 	lemmaAx     string // axioms generated from proved lemma functions (see lemmaax.go)
 	lemmaAxDone bool
 	cellN     int
@@ -1319,6 +1320,13 @@ func (x *Exec) loopHavoc(st *State, fr *Frame, lp *Loop) {
 			case *ssa.Store:
 				markPtr(i.Addr)
 			case *ssa.Call:
+				// an append inside the loop into the spare capacity of a shared backing array is a
+				// write that states after the loop must still be charged with
+				if bi, isB := i.Call.Value.(*ssa.Builtin); isB && bi.Name() == "append" && len(i.Call.Args) == 2 {
+					if ref, rs, ok := x.sharedAppendBase(st, fr, i.Call.Args[0], map[ssa.Value]bool{}); ok {
+						st.ghost["aliaswrite:"+rs+":"+ref] = TV{SBool, "true"}
+					}
+				}
 				eff := x.callEffects(fr, i.Common())
 				for _, a := range eff.ptrArgs {
 					markPtr(a)
